@@ -233,6 +233,58 @@ pub fn sections() -> Vec<(String, &'static str, Vec<f32>)> {
             out.push((format!("primaries/{p:?}/to709={to709}"), "primaries", o));
         }
     }
+    // discrete verdicts: constructor acceptance and conversion support must be identical in every build
+    {
+        use crate::geom::*;
+        use yuvxyb::{Yuv, YuvError};
+        let mut specs = small_box(3);
+        let base = FSpec::well_formed(4, 4, (1, 1), true, 10, 1);
+        let f = build::<u16>(&base);
+        for p in 0..3 {
+            for i in 0..f.planes[p].data.len() {
+                for val in [1024u16, 65535] {
+                    let mut sp = base;
+                    sp.bad = Some((p, i, val));
+                    specs.push(sp);
+                }
+            }
+        }
+        for depth in 8..=16u8 {
+            let mut sp = FSpec::well_formed(2, 2, (0, 0), true, depth, 0);
+            sp.bad = Some((0, 1, sp.max_code().saturating_add(1)));
+            specs.push(sp);
+        }
+        let code = |r: Result<Result<(), YuvError>, String>| -> f32 {
+            match r {
+                Ok(Ok(())) => 0.0,
+                Ok(Err(YuvError::SubsamplingMismatch)) => 1.0,
+                Ok(Err(YuvError::InvalidLumaWidth)) => 2.0,
+                Ok(Err(YuvError::InvalidLumaHeight)) => 3.0,
+                Ok(Err(YuvError::InvalidData)) => 4.0,
+                Err(_) => 9.0,
+            }
+        };
+        let v: Vec<f32> = specs
+            .iter()
+            .filter(|s| s.buildable())
+            .map(|s| if s.wide { code(guarded(|| Yuv::new(build::<u16>(s), s.config()).map(|_| ()))) } else { code(guarded(|| Yuv::new(build::<u8>(s), s.config()).map(|_| ()))) })
+            .collect();
+        out.push(("verdict/yuv_new".into(), "verdict", v));
+        use super::c14::{all_meta, run_conv, PAIRS};
+        let mut v = vec![];
+        for m in all_meta() {
+            for (a, b, _) in PAIRS {
+                for c in [a, b] {
+                    v.push(match run_conv(c, &m) {
+                        Ok(Ok(_)) => 0.0,
+                        Ok(Err(e)) => 1.0 + (e as u8) as f32,
+                        Err(_) => 99.0,
+                    });
+                }
+            }
+        }
+        out.push(("verdict/conversions".into(), "verdict", v));
+    }
     let pats: Vec<f32> = (0..1u32 << 16).map(|i| f32::from_bits(i << 16)).collect();
     out.push(("math/cbrtf".into(), "cbrtf", pats.iter().map(|&x| if x.is_normal() { cbrtf(x) } else { 0.0 }).collect()));
     out.push(("math/expf".into(), "expf", pats.iter().map(|&x| if (-85.0..=85.0).contains(&x) { expf(x) } else { 0.0 }).collect()));
